@@ -2,6 +2,7 @@
 // independent Fourier-Motzkin elimination over the whole quick family Q and a slice
 // of 3x2 / 2x3 / 3x3 LPs before anything it says is believed.
 #include "vx_family.hpp"
+#include "vx_planted.hpp"
 #include "vx_runner.hpp"
 using namespace vx;
 
@@ -41,6 +42,29 @@ int main(int argc, char** argv)
       return 0;
    };
    rep.phase("enum-vs-fourier-motzkin", fs.total, fn, [&](uint64_t i, uint64_t) { TinyLP lp; fs.get(i, lp); return lp.str(); }, o);
+   // the planted-LP generator (known classification by construction) is cross-examined by basis enumeration on every
+   // member small enough for it: all sizes up to 4x3 / 3x4, three densities, both degeneracy modes, both senses, three kinds, 60 seeds
+   static PlantedGrid pg;
+   pg.sizes = {{1, 1}, {2, 1}, {1, 2}, {2, 2}, {3, 2}, {2, 3}, {3, 3}, {4, 3}, {3, 4}};
+   pg.densities = {15, 40, 100};
+   pg.seeds = 60;
+   auto fp = [&](uint64_t idx, int, Ctx & c) -> uint64_t
+   {
+      PlantedSpec sp = pg.at(idx);
+      PlantedLP P = planted(sp);
+      XLP x = P.lp.exact();
+      Classification cl = classify(x);
+      c.count("planted_lps");
+      c.count(std::string("planted.") + sp.kindName() + ".enum=" + cl.name());
+      std::string bad = planted_selfcheck(P);
+      bool ok = bad.empty();
+      if(sp.kind == 0) ok = ok && cl.hasopt && cl.opt == P.cl.opt;
+      else if(sp.kind == 1) ok = ok && !cl.feasible;
+      else ok = ok && cl.feasible && !cl.hasopt;
+      if(!ok) c.violation("planted-generator-disagrees-with-enumeration", sp.str(), std::string("enum=") + cl.name() + " opt=" + cl.opt.get_str() + " planted opt=" + P.cl.opt.get_str() + " " + bad + " lp=" + P.lp.str());
+      return 0;
+   };
+   rep.phase("planted-vs-enumeration", pg.size(), fp, [&](uint64_t i, uint64_t) { return pg.at(i).str(); }, o);
    rep.rule = "every canonical LP of the families is classified by basis enumeration and by Fourier-Motzkin";
    rep.evaluations = rep.all.counters["lps"];
    rep.finish(rep.all.counters["lps"]);
